@@ -148,6 +148,15 @@ static int notfreed_warn;
 static int have_lsan;
 
 int __lsan_do_recoverable_leak_check(void) __attribute__((weak));
+void __lsan_ignore_object(const void *p) __attribute__((weak));
+size_t __sanitizer_get_current_allocated_bytes(void) __attribute__((weak));
+
+/* the leak report lists the leaked objects, so that they can be set aside and are not reported again after later cases */
+const char *
+__lsan_default_options(void)
+{
+    return "report_objects=1";
+}
 
 static void
 log_cb(LY_LOG_LEVEL level, const char *msg, const char *data_path, const char *schema_path, uint64_t line)
@@ -176,7 +185,7 @@ scrub_stack(void)
 static void
 leak_check(void)
 {
-    static char buf[16384];
+    static char buf[262144];
     int saved, n = 0;
     FILE *tmp;
     char *p, *q, f1[80] = "?", f2[80] = "?";
@@ -221,6 +230,15 @@ leak_check(void)
             }
         }
         printf(" !leak(%s,%s)", f1, f2);
+        /* "Objects leaked above:" / "0x60c000001234 (56 bytes)" : set them aside */
+        for (p = buf; __lsan_ignore_object && (p = strstr(p, "\n0x")); ) {
+            unsigned long long a = strtoull(p + 1, &q, 16);
+
+            if (a && !strncmp(q, " (", 2)) {
+                __lsan_ignore_object((const void *)(uintptr_t)a);
+            }
+            p = q;
+        }
         if (getenv("RB_DEBUG")) {
             fputs(buf, stderr);
         }
@@ -1029,6 +1047,9 @@ main(void)
     struct shard S;
     struct sigaction sa;
     int limit = getenv("RB_CPU_LIMIT") ? atoi(getenv("RB_CPU_LIMIT")) : 10;
+    size_t heap0 = 0;
+    unsigned ncase = 0;
+    int private_ctx = 0;
 
     memset(&S, 0, sizeof S);
     memset(&sa, 0, sizeof sa);
@@ -1053,7 +1074,12 @@ main(void)
         }
         cur_entry = c.f[1];
         cpu_limit(limit);
+        /* the leak checker stops the world and costs ~0.1 s: it runs only when the heap in use has grown over the case
+         * (allocator statistics of the sanitizer run time; growth that is no leak, e.g. a resized hash table, only costs
+         * the check) and after every 64th case */
+        heap0 = (have_lsan && __sanitizer_get_current_allocated_bytes) ? __sanitizer_get_current_allocated_bytes() : 0;
 
+        private_ctx = extra_hex ? 1 : 0;
         if (extra_hex) {
             /* private context: fixed set + the given module */
             struct shard P;
@@ -1082,7 +1108,11 @@ main(void)
         }
         cpu_limit(0);
         if (have_lsan) {
-            leak_check();
+            size_t heap1 = __sanitizer_get_current_allocated_bytes ? __sanitizer_get_current_allocated_bytes() : 1;
+
+            if ((heap1 > heap0) || !(++ncase % 64)) {
+                leak_check();
+            }
         }
         VEND();
     }
